@@ -374,6 +374,9 @@ def run(tier: str, seed: int) -> int:
                                     continue
                                 pd = PARAM_SETS[(pi + len(rk) + durk // 4) % len(PARAM_SETS)]
                             else:
+                                # thorough: every parameter set meets every class, split between the two modes
+                                if (pi + int(inplace) + (durk // 4)) % 2 == 0:
+                                    continue
                                 pd = PARAM_SETS[pi]
                             mode = "float"
                             if rk in ("near", "cum"):
